@@ -51,6 +51,16 @@ CHECKS = {
  'C09': dict(engine='B', technique='symbolic execution (z3, term level) of the real write_restart_file / restart constructors against a typed tape model of the I/O classes',
    text='Unit-level necessary condition: for each encodable restartable component (IonizationVariables, HydroVariables, Box/CoordinateVector, DensitySubGrid/HydroDensitySubGrid built by the ordinary constructor; TimeLine and RandomGenerator under C19/C13) the restarted object equals the dumped one field by field INCLUDING derived fields, read order/types match the write, and write(read(write(x))) == write(x), for all field values.',
    note='Partial: the headline clause (a whole run dumped at step k continues bit-identically), chains of restarts, optional components and string/map based state (ParameterFile, YAMLDictionary) are outside. Sub-grids of 1-3 cells.', ref='DESIGN.md section 5 C09'),
+
+ 'C04': dict(engine='B+A', technique='symbolic execution (z3, IEEE-UF, two runs in one path) of the real Hydro::do_flux_calculation for the flux application; cbmc on the real sweep loops with recording stubs for face coverage',
+   text='Structural facts that imply conservation: (F1) what do_flux_calculation subtracts from the left cell it adds to the right cell, bit for bit, limiter active or not, independent of pending changes; (F2) inner and outer flux/gradient sweeps visit every face exactly once with the correct cell pair, for cubic and non-cubic blocks. Totals "up to round-off" over whole grids are the paper consequence (with C07) and are not machine-checked.',
+   note='Riemann solver and slope limiter are memoised nondeterministic functions in F1. Outside: positivity safeguards, ghost/reflective boundaries (F3), 1.5 c_s wall clause, CFL.', ref='DESIGN.md section 5 C04'),
+ 'C10': dict(engine='A', technique='bounded model checking (cbmc) of the real inner/outer sweep loops with recording stubs, symbolic probe face',
+   text='L1: a block split into sub-grids computes exactly the same (left cell, right cell, direction) pairs as the single block: outer sweeps pair upper-wall cells of the left grid with lower-wall cells of the right grid at equal transverse indices, inner sweeps cover every interior face once; for block shapes up to 3x3x3 including non-cubic ones. Numeric equality of the sums is "up to round-off" by the property itself and is not claimed.',
+   note='Equal-shape neighbours assumed (as in the code). L3 (single-thread pop order is a function of the queue state) is covered structurally by C08 QS_get_task.', ref='DESIGN.md section 5 C10'),
+ 'C18': dict(engine='B+A', technique='symbolic execution (z3, IEEE-UF) of the real Verner cross-section routine on arbitrary tables against the transcribed published formula; cbmc bit-precise for the table search',
+   text='Cross sections for arbitrary table entries with the shipped sign pattern equal the published fitting formula on the same tables, are non-negative and exactly zero below threshold (element Z=4 tables, all ionisation stages, shells 1-3); Utilities::locate brackets every x in every strictly increasing table of length 2..16.',
+   note='Partial: table values themselves, recombination/charge-transfer rates, statistical distribution of sampled frequencies are outside.', ref='DESIGN.md section 5 C18'),
 }
 NA = {
 }
